@@ -73,6 +73,10 @@ def build_case(seed, i):
              ':name', ':time', ':location', ':poss', ':beneficiary', ':accompanier', ':age', ':foo',
              ':consist-of', ':prep-on-behalf-of', ':op10', ':consist', ':prep-on-behalf']
     node = T.rand_tree(rng, rm, roles=roles, p_aln=0.3)
+    if i % 4 == 1:
+        # (AMR cases) some relations are written twice: directly, and as a collapsible reified
+        # node - dereifying then produces a triple the graph already has, markers and all
+        node = _reified_twins(random.Random(f'{seed}:C17:twins:{i}'), node, rm, [0])
     g = layout.interpret(Tree(node, metadata={'id': str(i)}), model)
     vs, tr = G.rand_graph(rng, rm, bases=roles)
     # a second, disconnected component so that errors() has several unreachable entries
@@ -85,6 +89,24 @@ def build_case(seed, i):
     return g, h, model, rm, vs, mname
 
 
+def _reified_twins(rng, node, rm, counter):
+    from pmon.ref import interp
+    v, br = node
+    out = []
+    for r, t in br:
+        if isinstance(t, tuple):
+            t = _reified_twins(rng, t, rm, counter)
+        out.append((r, t))
+        base = r.partition('~')[0]
+        fr = rm.first_reification(base) if r != '/' else None
+        if fr and rm.unambiguous(base) and not rm.inverted(base) and t is not None and rng.random() < 0.5:
+            concept, sr, tr = fr
+            counter[0] += 1
+            tv = t[0] if isinstance(t, tuple) else interp.split_atom(t)[0]
+            out.append((sr + '-of', (f'rt{counter[0]}', [('/', concept + rng.choice(['', '~3'])), (tr, tv)])))
+    return (v, out)
+
+
 def operations(g, h, model, vs):
     import penman
     from penman import layout, transform, surface
@@ -95,6 +117,7 @@ def operations(g, h, model, vs):
         'configure_g': lambda: layout.configure(g, model=model),
         'reify_edges': lambda: transform.reify_edges(g, model),
         'dereify(reify)': lambda: transform.dereify_edges(transform.reify_edges(g, model), model),
+        'dereify_edges': lambda: transform.dereify_edges(g, model),
         'reify_attributes_h': lambda: transform.reify_attributes(h),
         'reify_attributes(reify_edges)': lambda: transform.reify_attributes(transform.reify_edges(g, model)),
         'indicate_branches': lambda: transform.indicate_branches(g, model),
